@@ -503,6 +503,20 @@ class CursorFlow:
                 # stepping back is fine when the base itself was obtained by stepping forward
                 b = f.inst_of(base)
                 return b is not None and b.op == 'getelementptr' and gep_const_step(b) == 1
+            if step is not None and step >= 2:
+                # several characters at once: each one stepped over must be known to differ from the terminator
+                good = ('nn', base.key()) in facts or ('nn', base.key()) in extra
+                for j in range(1, step):
+                    mids = [g for g in f.all_insts() if g.op == 'getelementptr' and g.ops[0].k in ('inst', 'arg') and
+                            g.ops[0].key() == base.key() and gep_const_step(g) == j]
+                    if not any(('nn', ('i', g.id)) in facts or ('nn', ('i', g.id)) in extra for g in mids):
+                        good = False
+                if record:
+                    self.used.add(i.id)
+                    if not good and i.id not in self.fail:
+                        self.fail[i.id] = 'the cursor is advanced by %d characters at once and not every character stepped ' \
+                                          'over is known to differ from the terminator' % step
+                return True
             raise AnalysisBroken('R-CURSOR: unsupported cursor step %r in __printf' % (step,))
         if i.op == 'select':
             c = i.ops[0]
@@ -772,6 +786,16 @@ class PEval:
                 return self.same_ptr(i.ops[0], depth + 1)
         return v.key()
 
+    def resolve(self, v, depth=0):
+        """the value v stands for on the paths of this conversion: phis with one live incoming edge are seen through"""
+        if v.k == 'inst' and depth < 6:
+            i = self.f.insts[v.id]
+            if i.op == 'phi' and self.reach is not None and i.block in self.reach:
+                live = [o for (bb, o) in i.incoming if (self.f.bmap[bb], i.block) in self.edges]
+                if len(live) == 1:
+                    return self.resolve(live[0], depth + 1)
+        return v
+
     def extra_bits(self, v, chain):
         """bits OR-ed into the directive word between the parser and this use (evaluable operands only)"""
         bits = 0
@@ -888,7 +912,19 @@ def dispatch(mod):
                     handler.append({'call': i, 'arg': pe.ev(i.ops[1]) if len(i.ops) > 1 else None,
                                     'in_loop': any(b in L2['blocks'] for L2 in f.loops if L2 is not L and
                                                    L2['header'] in L['blocks'])})
-        out[chr(ch) if 0 < ch < 128 else ch] = {'calls': calls, 'handler': handler, 'block': case['bb']}
+        # where the scan resumes: the cursor handed to the next pass of the directive loop
+        nxt_ok = None
+        for ph in L['header'].insts:
+            if ph.op == 'phi' and ph.ty.get('k') == 'ptr' and any(v.k == 'arg' and v.argno == FORMAT for (bb, v) in ph.incoming):
+                nxt_ok = True
+                for (bb, v) in ph.incoming:
+                    if f.bmap[bb] not in L['latches']:
+                        continue
+                    g = f.inst_of(pe.resolve(v))
+                    if not (g is not None and g.op == 'getelementptr' and gep_const_step(g) == 1 and
+                            pe.ptr is not None and pe.same_ptr(g.ops[0]) == pe.ptr):
+                        nxt_ok = False
+        out[chr(ch) if 0 < ch < 128 else ch] = {'calls': calls, 'handler': handler, 'block': case['bb'], 'next_ok': nxt_ok}
     return {'table': out, 'width_atoi': aw, 'prec_atoi': ap, 'switch': sw, 'loop': L}
 
 
